@@ -9,7 +9,7 @@ from .. import models as M, replay, build
 from ..harness import JobCtx
 
 PROPERTY = 'C16'
-MIR = [('server', 'on'), ('internal', 'on'), ('solver', 'on'), ('rapid_solve', 'on')]
+MIR = [('server', 'on'), ('internal', 'on'), ('solver', 'on'), ('rapid_solve', 'on'), ('solver', 'off')]
 CRATES = ['server', 'solver', 'rapid_solve']
 ASSUMPTIONS = ['every stage (min-cost-flow solve, improve_depots, local-search solve, transition-search solve, set_next_day_transitions, reassign_end_depots_consistent_with_transitions, evaluate, create_output_json) is an uninterpreted function: the claim is about the wiring only, the stages are the subject of the other properties',
                'printing, timing and hostname look-ups are no-ops', 'two vehicle types',
@@ -70,6 +70,7 @@ def reference(ntypes, maintenance):
 def jobs(tier, seed):
     js = [dict(name='server::solve_instance wiring, %d types' % n, func='job_wiring', kwargs=dict(ntypes=n, entry='solve_instance', crate='server')) for n in ((2,) if tier == 'quick' else (1, 2, 3))]
     js += [dict(name='internal::run wiring, %d types' % n, func='job_wiring', kwargs=dict(ntypes=n, entry='run', crate='internal')) for n in ((2,) if tier == 'quick' else (1, 2, 3))]
+    js += [dict(name='MinCostFlowSolver::solve wiring, %d types' % n, func='job_mcf_wiring', kwargs=dict(ntypes=n)) for n in ((2,) if tier == 'quick' else (1, 2, 3))]
     return js
 
 def job_wiring(name, ntypes, entry, crate):
@@ -145,8 +146,47 @@ def job_wiring(name, ntypes, entry, crate):
         J.sample('branch maintenance=%s: returned schedule term = %s' % (maint, str(got_sched)[:400]))
     return J.result()
 
+def job_mcf_wiring(name, ntypes, mode='on'):
+    """MinCostFlowSolver::solve from MIR, stages uninterpreted: every vehicle type is solved with ITS OWN maintenance allotment and
+    all results are handed to Schedule::from_tours on the solver's own network"""
+    rec = []
+    VT = lambda: [Agg('VehicleTypeIdx', None, [bv(i, 'u16')]) for i in range(ntypes)]
+    models = [
+        (r'^MinCostFlowSolver::distribute_maintenance_slots$', lambda ex, c, a: MapVal([(v, Cell(UF('allotment', [v]))) for v in VT()], name='allot')),
+        (r'^MinCostFlowSolver::solve_for_vehicle_type$', lambda ex, c, a: UF('solve_for_vehicle_type', [a[1], a[2]])),
+        (r'^Schedule::from_tours$', lambda ex, c, a: (rec.append(list(a)), ok(UF('from_tours', [])))[1]),
+        (r'^(model::vehicle_types::)?VehicleTypes::iter$', lambda ex, c, a: M.ListIter(VT())),
+        (r'^(model::vehicle_types::)?VehicleTypes::get$', lambda ex, c, a: some(M.arc(UF('vt', [a[1]])))),
+        (r'^(model::network::)?Network::vehicle_types$', lambda ex, c, a: M.arc(Agg('VehicleTypes', None, [Opaque('m'), VecVal([Cell(v) for v in VT()])]))),
+        (r'^(std::io::_print|core::fmt::.*|Arguments.*)$', lambda ex, c, a: Opaque('print')),
+    ]
+    J = JobCtx(name, ['solver'], mode=mode, extra_models=models); ex = J.ex; _EX[0] = ex
+    f = [v[0] for k, v in ex.fns.items() if 'min_cost_flow_solver.rs' in k and k.endswith('>::solve')]
+    if len(f) != 1: raise Unsupported('MinCostFlowSolver::solve: %d candidates' % len(f))
+    def body():
+        ex.pc_global = []; ex.inputs = {}; del rec[:]
+        nw = M.arc(UF('network', []))
+        solver = Agg('MinCostFlowSolver', None, [dict(vehicle_types=M.arc(Agg('VehicleTypes', None, [Opaque('m'), VecVal([Cell(v) for v in VT()])])), config=M.arc(Opaque('config')), network=nw)[x] for x in STRUCTS['MinCostFlowSolver']])
+        r = ex.call_fn(f[0], [Ref(Cell(solver))]); return list(rec), r
+    for pc, r in J.explore(body):
+        if isinstance(r, Panic): J.panic(pc, r, clause='start solution wiring executes'); continue
+        calls, res = r; J.reached += 1
+        if len(calls) != 1: J.prove(pc, False, 'start solution: exactly one schedule is built from the per-type tours'); continue
+        tours, nw = calls[0]
+        got = norm_term(tours)
+        want = ('map',) + tuple(sorted((('vt%d' % i,), ('solve_for_vehicle_type', ('vt%d' % i,), ('allotment', ('vt%d' % i,)))) for i in range(ntypes)))
+        J.prove(pc, got == want, 'start solution: every vehicle type is solved with its own maintenance allotment and all per-type tours reach Schedule::from_tours')
+        J.prove(pc, norm_term(nw) == ('network',) and isinstance(res, UF) and res.name == 'from_tours', 'start solution: the schedule is built on the solver\'s own network and returned as is')
+        J.sample('solve() -> from_tours(%s)' % (str(got)[:300]))
+    return J.result()
+
 WITNESS = ['solution/resources/test_instance.json', 'model/resources/small_test_input.json']
 def confirm(c):
+    if c.get('job_func') == 'job_mcf_wiring':
+        from ..harness import confirm_on_other_flavour
+        return confirm_on_other_flavour('mirsym.obligations.C16', 'job_mcf_wiring', c.get('job_kwargs', {}), c['clause'])
+    return _confirm_native(c)
+def _confirm_native(c):
     """native: server::solve_instance vs the reference composition of the same (real) stages on the repository's instances"""
     out = []
     for w in WITNESS:
